@@ -621,7 +621,7 @@ func (f *Frame) callMods(c *ssa.CallCommon, mod map[string]bool) bool {
 		if con.ModAll {
 			return false
 		}
-		for _, m := range con.Modifies {
+		for _, m := range vc.P.effMods(con) {
 			mod[vc.P.modKey(m)] = true
 		}
 		return true
@@ -758,7 +758,7 @@ func (f *Frame) loopHeader(li *loopInfo) {
 	{
 		declared := map[string]bool{}
 		if vc.con != nil {
-			for _, m := range vc.con.Modifies {
+			for _, m := range vc.P.effMods(vc.con) {
 				declared[vc.P.modKey(m)] = true
 			}
 		}
@@ -769,7 +769,7 @@ func (f *Frame) loopHeader(li *loopInfo) {
 				srt, known = "(Array Int Int)", true
 				vc.cellSort[k] = srt
 			}
-			if !known || declared[k] || (vc.con != nil && vc.con.ModAll) || !(strings.HasPrefix(k, "H:") || strings.HasPrefix(k, "D:") || strings.HasPrefix(k, "M:") || k == "ghost:iterpos") || !strings.HasPrefix(srt, "(Array Int ") {
+			if !known || declared[k] || vc.P.untrackedKey(k) || (vc.con != nil && vc.con.ModAll) || !(strings.HasPrefix(k, "H:") || strings.HasPrefix(k, "D:") || strings.HasPrefix(k, "M:") || k == "ghost:iterpos") || !strings.HasPrefix(srt, "(Array Int ") {
 				continue
 			}
 			entryV := f.getCell(f.entry, k, srt)
@@ -1389,6 +1389,9 @@ func (f *Frame) execIndex(x *ssa.Index) {
 		f.safety("index", and(sx("<=", "0", idx.t), sx("<", idx.t, fmt.Sprint(xt.Len()))), x.Pos())
 		f.vals[x] = Val{sx("select", v.t, idx.t), vc.sortOf(xt.Elem()), xt.Elem()}
 	case *types.Basic: // string index
+		if v.s == SStr {
+			f.safety("index", and(sx("<=", "0", idx.t), sx("<", idx.t, sx("strlen", v.t))), x.Pos())
+		}
 		vc.abstractf("%s: string indexing: arbitrary byte", vc.P.fnKey(f.fn))
 		f.vals[x] = vc.freshVal("strindex", x.Type())
 	case *types.Slice:
@@ -1441,8 +1444,24 @@ func (f *Frame) execSlice(x *ssa.Slice) {
 	case *types.Slice:
 		v := f.sval(x.X)
 		if v.s == SBS {
-			vc.abstractf("%s: byte-string slicing: arbitrary sub-string", vc.P.fnKey(f.fn))
-			f.vals[x] = vc.freshVal("sub", x.Type())
+			// bounds are an obligation, the length of the result is exact, its content is arbitrary
+			n := sx("strlen", sx("bs_c", v.t))
+			lo, hi := "0", n
+			if x.Low != nil {
+				lo = f.sval(x.Low).t
+			}
+			if x.High != nil {
+				hi = f.sval(x.High).t
+			}
+			f.safety("slice-bounds", and(sx("<=", "0", lo), sx("<=", lo, hi), sx("<=", hi, n)), x.Pos())
+			if x.Low == nil && x.High == nil {
+				f.vals[x] = v
+				return
+			}
+			vc.abstractf("%s: byte-string slicing: arbitrary sub-string of the given length", vc.P.fnKey(f.fn))
+			r := vc.freshVal("sub", x.Type())
+			vc.assume(eq(sx("strlen", sx("bs_c", r.t)), sx("-", hi, lo)))
+			f.vals[x] = r
 			return
 		}
 		lo, hi := "0", sx("len_"+v.s, v.t)
@@ -1457,9 +1476,16 @@ func (f *Frame) execSlice(x *ssa.Slice) {
 			// s[:k] keeps the backing array: an append to the result may overwrite elements still visible through
 			// other slice values. Slices are modelled as values (no aliasing), so a function that both shortens a slice
 			// and appends is outside the subset.
+			// Within one function the flow from a shortening to an append is followed (alias.go); across functions the old
+			// blanket rule stays.
 			vc.sliceShortened = vc.P.fset.Position(x.Pos()).String()
-			if vc.appendSeen != "" {
-				vc.errf("%s: a slice is shortened (%s) and appended to (%s) in one function: backing-array aliasing is outside the value model of slices", vc.P.fnKey(vc.fn), vc.sliceShortened, vc.appendSeen)
+			vc.sliceShortenedFn = f.fn
+			if f.shortOrig == nil {
+				f.shortOrig = map[*ssa.Slice]Val{}
+			}
+			f.shortOrig[x] = v
+			if vc.appendSeen != "" && vc.appendSeenFn != f.fn {
+				vc.errf("%s: a slice is shortened (%s) and appended to (%s) in different functions: backing-array aliasing is outside the value model of slices", vc.P.fnKey(vc.fn), vc.sliceShortened, vc.appendSeen)
 			}
 		}
 		if lo == "0" {
@@ -1470,6 +1496,28 @@ func (f *Frame) execSlice(x *ssa.Slice) {
 		arr := vc.fresh("subslice", "(Array Int "+vc.sortOf(xt.Elem())+")")
 		vc.assume(fmt.Sprintf("(forall ((k Int)) (! (= (select %s k) (select (el_%s %s) (+ k %s))) :pattern ((select %s k))))", arr, v.s, v.t, lo, arr))
 		f.vals[x] = Val{sx("mk_"+v.s, "false", sx("-", hi, lo), arr), v.s, x.Type()}
+	case *types.Basic:
+		// string slicing: bounds are an obligation, the length of the result is exact, its content is arbitrary
+		v := f.sval(x.X)
+		if v.s != SStr {
+			vc.errf("%s: Slice of %s unsupported", vc.P.fnKey(f.fn), x.X.Type())
+			f.vals[x] = vc.freshVal("sub", x.Type())
+			return
+		}
+		lo, hi := "0", sx("strlen", v.t)
+		if x.Low != nil {
+			lo = f.sval(x.Low).t
+		}
+		if x.High != nil {
+			hi = f.sval(x.High).t
+		}
+		f.safety("slice-bounds", and(sx("<=", "0", lo), sx("<=", lo, hi), sx("<=", hi, sx("strlen", v.t))), x.Pos())
+		r := vc.freshVal("substr", x.Type())
+		vc.assume(eq(sx("strlen", r.t), sx("-", hi, lo)))
+		if !(x.Low == nil && x.High == nil) {
+			vc.abstractf("%s: string slicing: arbitrary content of the given length", vc.P.fnKey(f.fn))
+		}
+		f.vals[x] = r
 	default:
 		vc.errf("%s: Slice of %s unsupported", vc.P.fnKey(f.fn), x.X.Type())
 		f.vals[x] = vc.freshVal("sub", x.Type())
@@ -1529,6 +1577,9 @@ func (f *Frame) loopOfIter(it ssa.Value) *loopInfo {
 func (f *Frame) execLookup(x *ssa.Lookup) {
 	vc := f.vc
 	if _, isStr := x.X.Type().Underlying().(*types.Basic); isStr {
+		if sv, iv := f.sval(x.X), f.sval(x.Index); sv.s == SStr {
+			f.safety("index", and(sx("<=", "0", iv.t), sx("<", iv.t, sx("strlen", sv.t))), x.Pos())
+		}
 		vc.abstractf("%s: string indexing: arbitrary byte", vc.P.fnKey(f.fn))
 		f.vals[x] = vc.freshVal("strindex", x.Type())
 		return
